@@ -223,17 +223,19 @@ int _vnacal_new_check_all_frequency_ranges(const char *function,
 
 
 /*
- * _vnacal_new_rollback_parameters: drop unknown parameters registered since
+ * _vnacal_new_rollback_parameters: drop parameters registered since
  *   @vnp: pointer to vnacal_new_t structure
  *   @anchor: value of vn_unknown_parameter_anchor before the registrations
  *   @unknowns: value of vn_unknown_parameters before the registrations
  *   @correlated: value of vn_correlated_parameters before the registrations
+ *   @serial: value of vnph_next_serial before the registrations
  *
  *   Used when vnacal_new_add_* fails after _vnacal_new_get_parameter
- *   has already registered unknown parameters of the rejected standard.
+ *   has already registered parameters of the rejected standard.
  */
 void _vnacal_new_rollback_parameters(vnacal_new_t *vnp,
-	vnacal_new_parameter_t **anchor, int unknowns, int correlated)
+	vnacal_new_parameter_t **anchor, int unknowns, int correlated,
+	int serial)
 {
     vnacal_new_parameter_hash_t *vnphp = &vnp->vn_parameter_hash;
     vnacal_new_parameter_t *vnprp;
@@ -257,6 +259,27 @@ void _vnacal_new_rollback_parameters(vnacal_new_t *vnp,
     vnp->vn_unknown_parameter_anchor = anchor;
     vnp->vn_unknown_parameters = unknowns;
     vnp->vn_correlated_parameters = correlated;
+
+    /*
+     * Drop the known parameters registered since serial, too: a
+     * rejected standard must not keep a hold on them, nor have their
+     * frequency ranges restrict the calibration.
+     */
+    for (int bucket = 0; bucket < vnphp->vnph_allocation; ++bucket) {
+	vnacal_new_parameter_t **pp = &vnphp->vnph_table[bucket];
+
+	while ((vnprp = *pp) != NULL) {
+	    if (vnprp->vnpr_serial >= serial) {
+		*pp = vnprp->vnpr_hash_next;
+		--vnphp->vnph_count;
+		_vnacal_release_parameter(vnprp->vnpr_parameter);
+		free((void *)vnprp);
+	    } else {
+		pp = &vnprp->vnpr_hash_next;
+	    }
+	}
+    }
+    vnphp->vnph_next_serial = serial;
 }
 
 /*
@@ -330,6 +353,7 @@ vnacal_new_parameter_t *_vnacal_new_get_parameter(const char *function,
     _vnacal_hold_parameter(vpmrp);
     vnprp->vnpr_parameter = vpmrp;
     vnprp->vnpr_cmp = vnp;
+    vnprp->vnpr_serial = vnphp->vnph_next_serial++;
     hash_insert(vnphp, vnprp);
 
     /*
